@@ -75,6 +75,8 @@ def _own(fnode):
 def mutable_expr(e):
     if isinstance(e, (ast.Dict, ast.List, ast.Set, ast.ListComp, ast.DictComp, ast.SetComp)):
         return True
+    if isinstance(e, ast.BinOp) and isinstance(e.op, (ast.Mult, ast.Add)):
+        return mutable_expr(e.left) or mutable_expr(e.right)          # [0] * 16, [..] + [..]
     if isinstance(e, ast.Call):
         d = dotted(e.func)
         if d in IMMUTABLE_FACTORIES:
@@ -559,6 +561,8 @@ class Analysis:
 
     def _store_publish(self, fn, tgt, value, stmt):
         ch = False
+        if isinstance(tgt, ast.Subscript) and isinstance(tgt.slice, ast.Slice):
+            return False                      # X[a:b] = v copies the elements of v; v itself is not stored
         if isinstance(tgt, (ast.Subscript, ast.Attribute)):
             for l in self.L(fn, tgt.value, stmt):
                 if l[0] in "SV":
